@@ -114,6 +114,16 @@ func (fc *FuncCtx) closureStoredIn(a *ssa.Alloc, fr *Frame) *Closure {
 	var found *ssa.MakeClosure
 	for _, r := range *refs {
 		if s, ok := r.(*ssa.Store); ok && s.Addr == a {
+			// the cell of a function-typed parameter of an inlined function (NaiveForm copies parameters into cells): the
+			// closure the caller passed, with its bindings already evaluated in the caller's frame
+			if p, isParam := s.Val.(*ssa.Parameter); isParam && found == nil && fr != nil {
+				if f := fc.frameFor(p.Parent(), fr); f != nil {
+					if pv, ok := f.vals[p]; ok && pv.Clo != nil {
+						return pv.Clo
+					}
+				}
+				return nil
+			}
 			mc, ok := s.Val.(*ssa.MakeClosure)
 			if !ok || found != nil {
 				return nil
